@@ -25,7 +25,7 @@ LEVEL_TEXT = ('Coq theorems over an executable Gallina model of IrcMsgQueue and 
               'and settings as inputs), for all histories: multiset ledger accepted = delivered + dropped-by-filter + flushed-by-reset + pending '
               'with unique ghost stamps (no loss, no duplication), explicit refusal by queueMsg, class priority, FIFO within a class (JOINs exempt), '
               'throttle and JOIN-rate spacing, filter drop = continue on the rest; the driver is only killed with both queues empty, for every state and call (full statement since the fix of C19.F18; die() before the end of MOTD closes at once by design), '
-              'silent refusal by sendMsg (finding F18b).  Eventual delivery of a held-back JOIN is proved at step level only (C19_join_not_starved_partial: a failed attempt does not move the deadline; at the deadline the JOIN at the head is released); the schedule-level claim is checked on the implementation by steady-polling tails.  Model tied to the source by regenerated '
+              'silent refusal by sendMsg (finding F18b).  C19_refines packages queue discipline, fates and spacing as a trace refinement of an abstract sender (express queue + three FIFO queues + throttle + JOIN rate limit, Spec.v); C19_delivery_under_polling gives eventual delivery under steady polling with an explicit bound in polls (Psi); a refusal by queueMsg has a reason (C19_refusal_has_reason).  Model tied to the source by regenerated '
               '_high/_low/JOIN tables and a differential run of events and full send state against a real Irc on every check.')
 LEVEL_NOTE = ('Messages without a wire form (menc false in the model) are the only ones takeMsg itself discards (theorem C19_only_unencodable_discarded); C19_no_loss_encodable gives the plain ledger under the hypothesis that every accepted message is encodable after the filters.  Trusted: Coq kernel, gen_tables.py, extraction + OCaml driver, the Python harness (event reconstruction from queue snapshots, '
               'filter logs and driver log); Python code is modelled not verified; truncation/labels/echo emulation are outside the model.')
@@ -170,6 +170,7 @@ def run_impl(case):
                 nlog = len(drv.log)
                 del sess.seen[:], sess.dropped[:]
                 fact['before'] = before
+                fact['zombie_before'] = bool(irc.zombie)
                 ret = None
                 if code == 0:
                     obj = mk(o[1])
@@ -289,6 +290,14 @@ def oracle(case, facts):
                 out.append(('refusal', 'op %d: queueMsg returned %r (neither True nor False)' % (i, f['ret'])))
             if bool(f['ret']) != f['present']:
                 out.append(('refusal', 'op %d: queueMsg returned %r but message %s the queue' % (i, f['ret'], 'is in' if f['present'] else 'is not in')))
+            # a refusal needs a reason: the Irc is dying, or queuing.duplicates is on and the same message (command, prefix,
+            # arguments, tags) is already waiting in the queue; a message that is stored must not have been refusable
+            if not f['present'] or f['ret'] is False:
+                same = lambda a, b: (a.command, a.prefix, a.args, a.server_tags) == (b.command, b.prefix, b.args, b.server_tags)
+                dup = cfg[2] and any(same(f['msg'], p) for l in f['before'][1:] for p in l)
+                if not f['zombie_before'] and not dup:
+                    out.append(('refusal', 'op %d: queueMsg refused %s %r although the Irc is not dying and %s'
+                                % (i, f['msg'].command, f['msg'].args, 'no equal message is queued' if cfg[2] else 'queuing.duplicates is off')))
         if code == 1 and not f['present'] and f['ret'] is not False:
             out.append(('send_explicit', 'op %d: sendMsg on a zombie discarded the message and returned %r (no explicit false result)' % (i, f['ret'])))
         if code == 3 and f['afterConnect']:
